@@ -31,12 +31,20 @@ def main():
                 continue
             env = dict(os.environ, VERIF_REPO=s, VERIF_SCRATCH='1')
             fails = []
-            for pr in props:
-                q = subprocess.run([os.path.join(ROOT, 'check'), pr, '--tier', tier], env=env, stdout=subprocess.PIPE, stderr=subprocess.STDOUT, text=True)
+            if props == ALL:
+                q = subprocess.run([os.path.join(ROOT, 'check'), 'all', '--tier', tier], env=env, stdout=subprocess.PIPE, stderr=subprocess.STDOUT, text=True)
                 if 'cargo check failed' in q.stdout:
-                    fails.append(f'{pr}:DOES-NOT-COMPILE')
-                    break
+                    fails.append('DOES-NOT-COMPILE')
                 fails += re.findall(r'FAIL (\S+)', q.stdout)
+                if 'Traceback' in q.stdout and not fails:
+                    fails.append('CRASH')
+            else:
+                for pr in props:
+                    q = subprocess.run([os.path.join(ROOT, 'check'), pr, '--tier', tier], env=env, stdout=subprocess.PIPE, stderr=subprocess.STDOUT, text=True)
+                    if 'cargo check failed' in q.stdout:
+                        fails.append(f'{pr}:DOES-NOT-COMPILE')
+                        break
+                    fails += re.findall(r'FAIL (\S+)', q.stdout)
             print(f'{os.path.basename(f)}: ' + ('silent' if not fails else 'ALARM ' + ' '.join(fails)))
             bad += bool(fails)
         finally:
